@@ -105,7 +105,7 @@ structure Side (E : MEnv) (b : List UInt8) : Prop where
   len : b.length < 2 ^ 64
 
 /-- the side conditions are satisfiable (toy cryptography, any datagram of a possible length) -/
-example (b : List UInt8) (hb : b.length < 2 ^ 64) : Side ⟨Crypto.toy, 1010, false⟩ b :=
+example (b : List UInt8) (hb : b.length < 2 ^ 64) : Side { C := Crypto.toy, now := 1010, trace := false } b :=
   ⟨Crypto.toy_lawful.open_len, Crypto.toy_lawful.aes_dec_len, by decide, hb⟩
 
 /-- **the inner decoder, client direction, AES kinds = the model** (what discharges `hinner` above) -/
@@ -217,7 +217,7 @@ theorem c02_ssclient_free_functions (ov : Bool) {SA : Type} (item : Cursor × Ad
 namespace Demo
 open SsUdp.Demo
 
-def E : MEnv := ⟨Crypto.toy, 1010, false⟩
+def E : MEnv := { C := Crypto.toy, now := 1010, trace := false }
 /-- the fresh window, as the generated `PacketWindowFilter::new` builds it -/
 def w0 : PacketWindowFilter := ⟨0, Array.replicate 128 0⟩
 /-- bob's binding: own client session 7, two packets sent so far, nothing received -/
